@@ -163,24 +163,30 @@ fn cur_enc(o: &CurOp) -> String {
 
 fn cur_ops(n: u64, full: bool) -> Vec<CurOp> {
     let mut v = Vec::new();
-    for t in 0..=n + 2 {
-        v.push(CurOp::SeekTo(t));
-    }
-    v.push(CurOp::Step(ModeSel::Keep));
-    v.push(CurOp::Step(ModeSel::Paused));
-    v.push(CurOp::Step(ModeSel::Play));
-    v.push(CurOp::Step(ModeSel::StepForward));
-    v.push(CurOp::Step(ModeSel::StepBack));
     if full {
+        for t in 0..=n + 2 {
+            v.push(CurOp::SeekTo(t));
+        }
+        v.push(CurOp::Step(ModeSel::Keep));
+        v.push(CurOp::Step(ModeSel::Paused));
+        v.push(CurOp::Step(ModeSel::Play));
+        v.push(CurOp::Step(ModeSel::StepForward));
+        v.push(CurOp::Step(ModeSel::StepBack));
         for t in 0..=n + 1 {
             v.push(CurOp::Step(ModeSel::Seek(t, false)));
             v.push(CurOp::Step(ModeSel::Seek(t, true)));
         }
     } else {
-        // reduced menu for fork children: Seek-then-Play only (Seek-then-Pause == SeekTo)
+        // reduced menu (fork children, re-recorded variant): every seek target, the persistent
+        // Play mode, single steps both ways.  `Seek{t,..}` and `Paused` are covered by the full
+        // menu on the worldline itself.
         for t in 0..=n + 1 {
-            v.push(CurOp::Step(ModeSel::Seek(t, true)));
+            v.push(CurOp::SeekTo(t));
         }
+        v.push(CurOp::Step(ModeSel::Keep));
+        v.push(CurOp::Step(ModeSel::Play));
+        v.push(CurOp::Step(ModeSel::StepForward));
+        v.push(CurOp::Step(ModeSel::StepBack));
     }
     v
 }
